@@ -253,6 +253,10 @@ class ActualArguments:
     pos_or_keyword_params: Container[Union[int, str]]
     ellipsis: bool = False
     param_spec: Optional[TypeVarValue] = None
+    star_args_min_len: int = 0
+    """Number of arguments that are definitely provided through ``star_args``: explicit
+    positional arguments (or elements of unpacked literals) written after a ``*args`` of
+    unknown length are merged into ``star_args``, but they still have to land somewhere."""
 
 
 class CallReturn(NamedTuple):
@@ -814,6 +818,10 @@ class Signature:
         bound_args: BoundArgs = {}
         star_args_consumed = False
         star_kwargs_consumed = False
+        # Number of parameters that take their value from *args, and whether some
+        # parameter (*args, ..., ParamSpec) accepts arbitrarily many positionals.
+        star_args_slots = 0
+        accepts_extra_positionals = False
         # Whether some parameter (**kwargs, ..., ParamSpec) accepts arbitrary
         # keyword arguments.
         accepts_extra_keywords = False
@@ -852,6 +860,7 @@ class Signature:
                         position = UNKNOWN  # default or args
                     bound_args[param.name] = position, Composite(actual_args.star_args)
                     star_args_consumed = True
+                    star_args_slots += 1
                 elif param.default is not None:
                     bound_args[param.name] = DEFAULT, Composite(param.default)
                 elif actual_args.ellipsis:
@@ -903,6 +912,7 @@ class Signature:
                         )
                         return None
                     star_args_consumed = True
+                    star_args_slots += 1
                     if param.default is None:
                         position = ARGS
                     else:
@@ -994,6 +1004,7 @@ class Signature:
                     return None
             elif param.kind is ParameterKind.VAR_POSITIONAL:
                 star_args_consumed = True
+                accepts_extra_positionals = True
                 positionals = []
                 while positional_index < len(actual_args.positionals):
                     positionals.append(
@@ -1056,11 +1067,13 @@ class Signature:
                 # just take it all
                 star_args_consumed = True
                 star_kwargs_consumed = True
+                accepts_extra_positionals = True
                 accepts_extra_keywords = True
                 param_spec_consumed = True
                 val = AnyValue(AnySource.ellipsis_callable)
                 bound_args[param.name] = UNKNOWN, Composite(val)
             elif param.kind is ParameterKind.PARAM_SPEC:
+                accepts_extra_positionals = True
                 accepts_extra_keywords = True
                 if actual_args.param_spec is not None:
                     bound_args[param.name] = KWARGS, Composite(actual_args.param_spec)
@@ -1113,6 +1126,20 @@ class Signature:
             self.show_call_error(
                 f"Takes {positional_index} positional arguments but"
                 f" {len(actual_args.positionals)} were given",
+                ctx,
+            )
+            return None
+        if (
+            not accepts_extra_positionals
+            and actual_args.star_args_min_len > star_args_slots
+        ):
+            # f(*args, 1, 2) for def f(a): whatever the length of args, the
+            # arguments written after it do not fit.
+            self.show_call_error(
+                f"Takes {positional_index + star_args_slots} positional arguments but"
+                " at least"
+                f" {len(actual_args.positionals) + actual_args.star_args_min_len} were"
+                " given",
                 ctx,
             )
             return None
@@ -2166,6 +2193,7 @@ def preprocess_args(
     more_processed_args: list[tuple[bool, Composite]] = []
     more_processed_kwargs: dict[str, tuple[bool, Composite]] = {}
     star_args: Optional[Value] = None
+    star_args_min_len = 0
     star_kwargs: Optional[Value] = None
     is_ellipsis: bool = False
     pok_indices = set()
@@ -2180,6 +2208,8 @@ def preprocess_args(
                 return None
             if star_args is not None:
                 star_args = unite_values(arg.value, star_args)
+                if is_required:
+                    star_args_min_len += 1
             else:
                 more_processed_args.append((is_required, arg))
         elif label is ARGS:
@@ -2237,6 +2267,7 @@ def preprocess_args(
         ellipsis=is_ellipsis,
         pos_or_keyword_params=pok_indices,
         param_spec=param_spec,
+        star_args_min_len=star_args_min_len,
     )
 
 
